@@ -980,6 +980,26 @@ def build(chk: Check) -> None:
             bool(PhaseSpaceFactor(s_, a_, b_, name=None) == PhaseSpaceFactor(s_, a_, b_, name="builtins.NoneType")),
         "image(None)": D._get_hashable_object(None), "image([1])": D._get_hashable_object([1]),  # noqa: SLF001
     }
+    # census: which SymPy classes of the package define their own equality / hash at all (the O3 contract is about the decorator's
+    # _hashable_content; a hand-written one elsewhere is outside every contract here)
+    import importlib
+    import pkgutil
+
+    import ampform as _amp
+
+    own_eq = {}
+    for mi in pkgutil.walk_packages(_amp.__path__, "ampform."):
+        try:
+            mod = importlib.import_module(mi.name)
+        except Exception:  # noqa: BLE001
+            continue
+        for c in vars(mod).values():
+            if inspect.isclass(c) and issubclass(c, sp.Basic) and c.__module__.startswith("ampform"):
+                for k in ("__eq__", "__hash__", "__ne__", "_hashable_content", "compare"):
+                    if k in c.__dict__ and getattr(c.__dict__[k], "__module__", None) not in ("ampform.sympy._decorator", "ampform.sympy.deprecated"):
+                        own_eq.setdefault(f"{c.__module__}.{c.__qualname__}", []).append(k)
+    chk.struct("census.equality_and_hash_of_expression_classes_come_from_the_decorator_only", not own_eq, F_HC, witness=own_eq, lemma=True,
+               replay=lambda m: {"reproduced": False, "note": "a class with hand-written equality is not covered by the O3 contract; decided by that class's own property (PoolSum: C18)"})
     # ---- instance level ----
     instance_level(chk, decorated, tier)
     helper_level(chk)
